@@ -196,6 +196,11 @@ def showState (d : DSt) : String :=
 def stepLine (d : DSt) (toks : List String) : DSt × String :=
   match toks with
   | ["new", "default"] => ({ o := ⟨10, 1, 100⟩, s := init, deleted := 0 }, "ok")
+  -- IEEE specials of the inner map's float32 ratio (see `Shrink.stepLine`)
+  | ["new", "nan", c] | ["new", "-inf", c] =>
+    match c.toInt? with | some c => ({ o := ⟨-1, 1, c⟩, s := init, deleted := 0 }, "ok") | none => (d, "bad-op")
+  | ["new", "+inf", c] =>
+    match c.toInt? with | some c => ({ o := ⟨1, 0, c⟩, s := init, deleted := 0 }, "ok") | none => (d, "bad-op")
   | ["new", a, b, c] =>
     match a.toInt?, b.toNat?, c.toInt? with
     | some a, some b, some c => if b = 0 then (d, "bad-op") else ({ o := ⟨a, b, c⟩, s := init, deleted := 0 }, "ok")
